@@ -62,17 +62,17 @@ def fault_for(s):
         elif at == 'sort':
             f = P('sort', 'before', tries + 1)
         elif at == 'sorting':
-            f = P('sort', 'partial', tries + 1)
+            f = P('sort', 'short' if s.get('left') == 'short' else 'partial', tries + 1)
         else:
             f = {'open': P('prefetch', 'before'), 'close': P('sbf_exit', 'before'), 'addrg': P('rehead', 'before'),
                  'index': P('index', 'before', 1), 'rmunsorted': P('index', 'after', 1), 'statusok': P('sbf_exit', 'after')}[at]
         if tries:
-            f['soft'] = {'proc': 'parent', 'site': 'sort', 'when': 'partial', 'count': tries}
+            f['soft'] = {'proc': 'parent', 'site': 'sort', 'when': 'short' if s.get('left') == 'short' else 'partial', 'count': tries}
             if f['site'] == 'sort' and f['when'] == 'before':
                 f['soft']['when'] = 'before'
         return f, False
     f = {'plan': P('plan', 'before'), 'pool': P('plan', 'after'), 'header': P('index', 'before', 1),
-         'merge': P('merge_bams', 'before'), 'merging': P('merge', 'partial'), 'indexmerged': P('merge', 'after'),
+         'merge': P('merge_bams', 'before'), 'merging': P('merge', 'short' if s.get('left') == 'short' else 'partial'), 'indexmerged': P('merge', 'after'),
          'rmparts': P('index', 'after', 2), 'rmtemp': P('merge_bams', 'after'), 'statusok': P('rmtree', 'after')}[at]
     return f, False
 
